@@ -1243,6 +1243,122 @@ def run_softeq(ctx, exe, model, n, findings):
     return len(lines), diverged
 
 
+
+# --------------------------------------------------------------------------- causal attribution
+def to_gq(tag, d):
+    """any quadric as general-quadric coefficients [a b c  d e f  g h i  j]
+    (a x²+b y²+c z² + d xy + e yz + f zx + g x + h y + i z + j)"""
+    if tag in ("px", "py", "pz"):
+        g = [0.0] * 10
+        g[6 + AXES.index(tag[1])] = 1.0
+        g[9] = -d[0]
+        return g
+    if tag == "p":
+        return [0.0] * 6 + list(d[:3]) + [-d[3]]
+    if tag in ("cxc", "cyc", "czc", "cx", "cy", "cz"):
+        t = AXES.index(tag[1])
+        u, v = [i for i in range(3) if i != t]
+        ou, ov, r2 = (0.0, 0.0, d[0]) if len(tag) == 3 else d
+        g = [0.0] * 10
+        g[u] = g[v] = 1.0
+        g[6 + u], g[6 + v] = -2 * ou, -2 * ov
+        g[9] = ou * ou + ov * ov - r2
+        return g
+    if tag in ("sc", "s"):
+        o, r2 = ([0.0, 0.0, 0.0], d[0]) if tag == "sc" else (d[:3], d[3])
+        return [1.0, 1.0, 1.0, 0.0, 0.0, 0.0] + [-2 * v for v in o] + [sum(v * v for v in o) - r2]
+    if tag in ("kx", "ky", "kz"):
+        t = AXES.index(tag[1])
+        o, tsq = d[:3], d[3]
+        g = [1.0, 1.0, 1.0] + [0.0] * 7
+        g[t] = -tsq
+        for i in range(3):
+            g[6 + i] = -2 * o[i] * g[i]
+        g[9] = sum(g[i] * o[i] * o[i] for i in range(3))
+        return g
+    if tag == "sq":
+        return list(d[:3]) + [0.0, 0.0, 0.0] + list(d[3:6]) + [d[6]]
+    if tag == "gq":
+        return list(d)
+    return None
+
+
+def quadric_distance(tag_a, da, tag_b, db, size=1.0):
+    """scale-free distance between two quadric surfaces: both promoted to general quadrics with
+    coordinates measured in units of `size`, normalised to unit largest second/cross (else
+    first-order) coefficient, best of the two signs; max coefficient difference"""
+    ga, gb = to_gq(tag_a, da), to_gq(tag_b, db)
+    if ga is None or gb is None:
+        return INF
+
+    def norm(g):
+        g = [g[i] * size * size for i in range(6)] + [g[6 + i] * size for i in range(3)] + [g[9]]
+        sc = max(abs(v) for v in g[:6]) or max(abs(v) for v in g[6:9]) or 1.0
+        return [v / sc for v in g]
+    ga, gb = norm(ga), norm(gb)
+    return min(max(abs(ga[i] - gb[i]) for i in range(10)), max(abs(ga[i] + gb[i]) for i in range(10)))
+
+
+def attribute_e2e(exe, model, sc, o, tol):
+    """causal attribution of a mislocated point: rebuild every leaf standalone and all leaves in
+    ONE unit on the real code; (a) a source surface that the real de-duplication mapped to a local
+    surface far from it in the scale-free metric; (b) a surface whose real simplifier output is far
+    from the emitted (transformed, unsimplified) surface.  Returns a finding kind or None."""
+    leaves = object_leaves(o)
+    if not leaves or len(leaves) > 24:
+        return None
+    for reg, _ in leaves:
+        sc.need(region_turns(reg))
+    solo_lines = ["build %s %s" % (head_words(tol, x), region_words(r, sc)) for r, x in leaves]
+    _, solo = vlib.run_lines([exe], solo_lines)
+    solo = [parse_build(x) for x in solo]
+    if any(b is None for b in solo):
+        return None
+    thr = 50.0 * tol
+    # (a) de-duplication in the joint unit
+    if len(leaves) >= 2:
+        joint_line = "build2 %s %s" % (hx(tol), " / ".join(
+            "%s %s" % (head_words(tol, x).split(" ", 1)[1], region_words(r, sc)) for r, x in leaves))
+        _, jo = vlib.run_lines([exe], [joint_line])
+        if jo and jo[0].startswith("ok nodes"):
+            parts = jo[0].split(" | ")[:-1]
+            for (reg, x), sb, part in zip(leaves, solo, parts):
+                items = part.split(" ; ")[1:]
+                if len(items) != len(sb["nodes"]):
+                    continue
+                size = max(region_extent(reg), 1e-12)
+                for (s0, _, tag0, d0), item in zip(sb["nodes"], items):
+                    w = item.split()
+                    tag1, d1 = w[2], [fl(v) for v in w[3:]]
+                    if (tag0, d0) == (tag1, d1):
+                        continue
+                    if tag0 != tag1 or quadric_distance(tag0, d0, tag1, d1, size) > thr:
+                        return "e2e/quadric-merge" if tag0 in ("sq", "gq") else "e2e/dedup-far"
+    # (b) simplification
+    if model:
+        emit_lines = ["emit %s %s" % (head_words(tol, x), region_words(r, sc)) for r, x in leaves]
+        _, eo = vlib.run_lines([model], emit_lines)
+        for (reg, x), sb, e in zip(leaves, solo, eo):
+            if not e.startswith("ok "):
+                continue
+            raw = [it.split() for it in e.split(" ; ")[1:]]
+            if len(raw) != len(sb["nodes"]):
+                continue
+            size = max(region_extent(reg), 1e-12)
+            rot = isinstance(x, dict) and not all(v in (0.0, 1.0, -1.0) for v in x["R"])
+            for rw, (s1, _, tag1, d1) in zip(raw, sb["nodes"]):
+                tag0, d0 = rw[1], [fl(v) for v in rw[2:]]
+                if quadric_distance(tag0, d0, tag1, d1, size) > thr:
+                    if reg["type"] == "ellipsoid":
+                        if tag1 in ("sq", "gq") and rot:
+                            return "e2e/ellipsoid-gq-snap"
+                        return "e2e/ellipsoid-cyl"
+                    if tag0 == "gq" and rot:
+                        return "e2e/gq-snap"
+                    return "e2e/simplifier:" + reg["type"]
+    return None
+
+
 # --------------------------------------------------------------------------- the check
 KNOWN_RECURSION_KEY = "ellipsoid-small-radii-recursion"
 
@@ -1278,6 +1394,14 @@ def run_build_diff(ctx, exe, model, sc, n, stats, findings):
         ({"type": "ppiped", "p": [1.0, 2.0, 3.0, 0.0, 0.0, 0.0]}, 1e-5, None),
         ({"type": "ppiped", "p": [1.0, 2.0, 3.0, -0.1, 0.1, 0.6]}, 1e-5, None),
         ({"type": "wedge", "p": [0.0, 0.25]}, 1e-5, None),
+        # rotated-quadric-cross-terms-dropped: thin cylinder under a 1.1e-6 rad rotation; the probe is
+        # 3.5e-4 outside the cylinder but inside the emitted (cross terms dropped) simple quadric
+        ({"type": "cyl", "p": [0.0015219489976428194, 0.19886239644950648],
+          "_probes": [[1.2777249992980149, 0.3749634683103739, -0.5636935415348644]]}, 1e-5,
+         {"R": [0.9999999999988722, 1.0106907996350052e-06, 1.1108832621087106e-06,
+                -1.0106921573169533e-06, 0.9999999999987425, 1.222199438268842e-06,
+                -1.1108820268769045e-06, -1.2222005609963628e-06, 0.9999999999986361],
+          "t": [1.279588311996585, 0.3748227166659073, -0.5592577497923145]}),
         ({"type": "box", "p": [1.0, 2.0, 3.0]}, 1e-5, {"R": [0.0, -1.0, 0.0, 1.0, 0.0, 0.0, 0.0, 0.0, 1.0],
                                                         "t": [1.0, 0.0, 0.0]}),
         ({"type": "cyl", "p": [1.0, 2.0]}, 1e-5, {"R": [1.0, 0.0, 0.0, 0.0, 0.0, -1.0, 0.0, 1.0, 0.0],
@@ -1360,7 +1484,7 @@ def run_member(ctx, exe, model, sc, cases, lines_build, oh_build, rng, findings,
         b = parse_build(o)
         if b is None:
             continue
-        pts = probes_for(rng, reg, tra, npts)
+        pts = probes_for(rng, reg, tra, npts) + [list(q) for q in reg.get("_probes", [])]
         e_ = region_extent(reg)
         margin_ = 10 * tol * max(1.0, e_ + xf_size(tra))
         pts += near_surface_probes(rng, b["nodes"], xf_up(tra, [0.0, 0.0, 0.0]), 1.2 * e_,
@@ -1535,7 +1659,7 @@ def run_xform_diff(ctx, exe, model, n, findings):
     return len(lines), n_or, diverged
 
 
-def run_e2e(ctx, exe, sc, n, npts, findings, stats):
+def run_e2e(ctx, exe, sc, n, npts, findings, stats, model=None):
     """end to end: object as a material in a world box -> InputBuilder -> OrangeParams ->
     OrangeTrackView initialisation at probe points vs analytic membership"""
     rng = ctx.rng
@@ -1612,6 +1736,7 @@ def run_e2e(ctx, exe, sc, n, npts, findings, stats):
         meta.append((i, o, world, pts, fill))
     _, oh = vlib.run_lines([exe], lines, timeout=3000)
     n_eval = 0
+    attributed = {}
     for (i, o, world, pts, fill), l, a in zip(meta, lines, oh):
         if not a.startswith("ok "):
             stats["e2e_" + a.split()[0] + "_" + (a.split() + [""])[1]] = \
@@ -1635,13 +1760,15 @@ def run_e2e(ctx, exe, sc, n, npts, findings, stats):
             n_eval += 1
             if chars[j] != exp:
                 kind = "e2e/cone-merge" if cones_soft_equal(surfs[i], tol) else "e2e"
-                tw = sum(genprism_twisted_faces(r) for r, _ in object_leaves(o) if r["type"] == "genprism")
-                if kind == "e2e" and tw > sum(1 for tag, _ in surfs[i] if tag in ("gq", "sq")):
-                    kind = "e2e/genprism-planar"
-                if kind == "e2e" and i in ell_lower:
-                    kind = "e2e/ellipsoid-cyl"
-                if kind == "e2e" and quadrics_merge(surfs[i], tol):
-                    kind = "e2e/quadric-merge"
+                if kind == "e2e":
+                    if i not in attributed:
+                        attributed[i] = attribute_e2e(exe, model, sc, o, tol)
+                    if attributed[i]:
+                        kind = attributed[i]
+                if kind == "e2e":
+                    tw = sum(genprism_twisted_faces(r) for r, _ in object_leaves(o) if r["type"] == "genprism")
+                    if tw > sum(1 for tag, _ in surfs[i] if tag in ("gq", "sq")):
+                        kind = "e2e/genprism-planar"
                 findings.append((kind, o, tol, None, l, {"point": p, "expected": exp, "located": chars[j],
                                                          "object": object_words_readable(o)}))
     return len(lines), n_eval
@@ -1724,6 +1851,14 @@ def classify(kind, reg, info):
         return "e2e-crash"
     if kind == "e2e/ellipsoid-cyl":
         return "ellipsoid-simplified-to-cylinder"
+    if kind == "e2e/ellipsoid-gq-snap":
+        return "ellipsoid-rotated-cross-terms-dropped"
+    if kind == "e2e/gq-snap":
+        return "rotated-quadric-cross-terms-dropped"
+    if kind == "e2e/dedup-far":
+        return "dedup-merged-distant-surfaces:e2e"
+    if kind.startswith("e2e/simplifier:"):
+        return "simplifier-changed-surface:" + kind.split(":", 1)[1]
     if kind == "e2e/genprism-planar":
         return "genprism-twisted-face-emitted-planar"
     if kind == "e2e/cone-merge":
@@ -1795,7 +1930,7 @@ def run_part(ctx):
     n_pair, n_pair_nodes, n_pair_merged, div_pair = run_pairs(
         ctx, exe, model, sc, (1500 if quick else 10000) * boost, findings, stats)
     n_e2e, n_e2e_eval = run_e2e(ctx, exe, sc, (300 if quick else 4000) * boost, 40 if quick else 80,
-                                findings, stats)
+                                findings, stats, model)
     diverged = div_corpus + div_build + div_mem + div_simp + div_xf + div_sq + div_pair
     if diverged:
         broken.append(f"correspondence: model and implementation differ on {len(diverged)} ops "
